@@ -108,6 +108,13 @@ def proof_obligations(pid, thorough):
     except Exception as e:         # the translator no longer understands the source
         res.update(ok=False, log="gen_generators failed: %r" % (e,), broken=["translator gen_generators.py: %r" % (e,)])
         return res
+    if pid == "C14":
+        try:
+            import conc
+            conc.generate()        # regenerate the table of lazily initialised statics from the current /repo
+        except Exception as e:
+            res.update(ok=False, log="conc.generate failed: %r" % (e,), broken=["translator conc.generate: %r" % (e,)])
+            return res
     ok, out = vlib.lean_build(["ManifModel", "manif_model"] + modules)
     if not ok:
         res.update(ok=False, log=out[-6000:], broken=["lake build " + " ".join(modules)])
